@@ -114,6 +114,10 @@ func (f *Flow) Run() *FlowResult {
 					}
 					ns = joinState(nu, d)
 				}
+				if len(ns) > 2048 {
+					res.Blowup = true
+					return res
+				}
 				if !res.In[succ][ns] {
 					res.In[succ][ns] = true
 					changed = true
